@@ -1,3 +1,148 @@
-"""placeholder: contracts for whatshap/cli/unphase.py (filled in below)"""
+"""Contracts for whatshap/cli/unphase.py (C13) over the axiomatised pysam model (contracts/pysam_model.py).
+
+run_unphase: the writer receives exactly the reader's records, in order; no record keeps an HP/PQ/PS FORMAT key and every other key stays; where
+a record has GT, no allele of any call keeps a phase bit, a fully known genotype becomes sorted(genotype) (an ordered permutation of it: same
+multiset of alleles) and any other genotype is left exactly as it was.  unphase_header: the three FORMAT definitions and the first `phasing`
+header line go, nothing else.
+The postcondition refers to the function's locals `reader` and `writer` (the objects it opened); old(...) is the file content on entry."""
+import z3
 from vcgen.api import *  # noqa
+from contracts import pysam_model as PM
+
 R = Registry("whatshap/cli/unphase.py")
+PM.install(R)
+OPTINT = PM.OPTINT
+from vcgen.builtins_model import sorted_fn  # noqa: E402
+_SORTED = sorted_fn(OPTINT)
+
+
+def _arrs(eng, st):
+    A = z3.ArraySort
+    I, B = z3.IntSort(), z3.BoolSort()
+    return dict(
+        fmt=eng.heap_arr(st, "Record.fmt#dom", A(I, B)),
+        gt=eng.heap_arr(st, "Call.gt#arr", A(I, OPTINT.dt)), gtlen=eng.heap_arr(st, "Call.gt#len", I),
+        none=eng.heap_arr(st, "Call.gt_none", B), ph=eng.heap_arr(st, "Call.ph#dom", A(I, B)),
+        calls=eng.heap_arr(st, "Record.calls#arr", A(I, I)), ncalls=eng.heap_arr(st, "Record.calls#len", I))
+
+
+def _keys(eng):
+    return {t: eng.key_of(eng.str_const(t)) for t in ("HP", "PQ", "PS", "GT")}
+
+
+def _call_untouched(a, a0, c):
+    return z3.And(a["gt"][c] == a0["gt"][c], a["gtlen"][c] == a0["gtlen"][c], a["none"][c] == a0["none"][c], a["ph"][c] == a0["ph"][c])
+
+
+def _call_done(a, a0, c):
+    """the call's genotype after unphasing, in terms of its genotype on entry"""
+    i = z3.Int(fresh_name("i"))
+    known = z3.ForAll([i], z3.Implies(z3.And(i >= 0, i < a0["gtlen"][c]), z3.Not(OPTINT.dt.is_none(a0["gt"][c][i]))))
+    sortable = z3.And(z3.Not(a0["none"][c]), known)
+    return z3.And(
+        forall_pat([i], z3.Implies(i >= 1, z3.Not(a["ph"][c][i])), [a["ph"][c][i]]),                       # no phase bit left
+        a["gtlen"][c] == a0["gtlen"][c], a["none"][c] == a0["none"][c],
+        z3.If(sortable, a["gt"][c] == _SORTED(a0["gt"][c], a0["gtlen"][c]), a["gt"][c] == a0["gt"][c]))
+
+
+def _rec_fmt_done(eng, a, a0, r):
+    K = _keys(eng)
+    t = z3.Int(fresh_name("t"))
+    return z3.And(z3.Not(a["fmt"][r][K["HP"]]), z3.Not(a["fmt"][r][K["PQ"]]), z3.Not(a["fmt"][r][K["PS"]]),
+                  forall_pat([t], z3.Implies(z3.And(t != K["HP"], t != K["PQ"], t != K["PS"]), a["fmt"][r][t] == a0["fmt"][r][t]), [a["fmt"][r][t]]))
+
+
+@R.spec
+def record_done(eng, st, r):
+    """POST of one record: format keys as specified; with GT every call done, without GT every call untouched"""
+    a, a0 = _arrs(eng, st), _arrs(eng, st.old)
+    r = to_z3(r)
+    K = _keys(eng)
+    j = z3.Int(fresh_name("j"))
+    c = a0["calls"][r][j]
+    return z3.And(_rec_fmt_done(eng, a, a0, r),
+                  z3.ForAll([j], z3.Implies(z3.And(j >= 0, j < a0["ncalls"][r]),
+                                            z3.If(a0["fmt"][r][K["GT"]], _call_done(a, a0, c), _call_untouched(a, a0, c))), patterns=[a0["calls"][r][j]]))
+
+
+@R.spec
+def record_untouched(eng, st, r):
+    a, a0 = _arrs(eng, st), _arrs(eng, st.old)
+    r = to_z3(r)
+    j = z3.Int(fresh_name("j"))
+    c = a0["calls"][r][j]
+    return z3.And(a["fmt"][r] == a0["fmt"][r], z3.Not(eng.heap_arr(st, "Record.frozen", z3.BoolSort())[r]),
+                  forall_pat([j], z3.Implies(z3.And(j >= 0, j < a0["ncalls"][r]), _call_untouched(a, a0, c)), [a0["calls"][r][j]]))
+
+
+@R.spec
+def format_done(eng, st, r):
+    a, a0 = _arrs(eng, st), _arrs(eng, st.old)
+    return _rec_fmt_done(eng, a, a0, to_z3(r))
+
+
+@R.spec
+def call_done(eng, st, c):
+    return _call_done(_arrs(eng, st), _arrs(eng, st.old), to_z3(c))
+
+
+@R.spec
+def call_untouched(eng, st, c):
+    return _call_untouched(_arrs(eng, st), _arrs(eng, st.old), to_z3(c))
+
+
+_WRITTEN = "len(writer.written) == %s and forall(k, implies(0 <= k and k < %s, writer.written[k] is reader.records[k]))"
+_DONE_BEFORE = "forall(k, implies(0 <= k and k < %s, record_done(reader.records[k])))"
+_UNTOUCHED_FROM = "forall(k, implies(%s <= k and k < len(reader.records), record_untouched(reader.records[k])))"
+_MOD = ["Record.fmt", "Record.frozen", "Call.gt", "Call.gt_none", "Call.ph", "Writer.written"]
+
+R.contract(
+    "run_unphase", params={"vcf_path": STR, "outfile": INT},
+    ensures=[
+        ("same-records-in-order", _WRITTEN % ("len(reader.records)", "len(reader.records)")),
+        ("every-record-unphased-and-otherwise-unchanged", _DONE_BEFORE % "len(reader.records)"),
+        ("header-passed-on", "writer.header is reader.header"),
+    ],
+    modifies=_MOD + ["Header.formats", "HRec.removed", "Writer.header"],
+    loops={
+        0: dict(index="ri", modifies=_MOD,
+                inv=[("written", _WRITTEN % ("ri", "ri")), ("done", _DONE_BEFORE % "ri"), ("rest-untouched", _UNTOUCHED_FROM % "ri"),
+                     ("writer", "writer is not None and fresh_writer(writer)")]),
+        2: dict(index="cj", modifies=["Call.gt", "Call.gt_none", "Call.ph"],
+                inv=[("done", _DONE_BEFORE % "ri"), ("rest-untouched", _UNTOUCHED_FROM % "(ri + 1)"),
+                     ("format", "format_done(record) and not record.frozen"),
+                     ("calls-done", "forall(j, implies(0 <= j and j < cj, call_done(record.calls[j])))"),
+                     ("calls-rest", "forall(j, implies(cj <= j and j < len(record.calls), call_untouched(record.calls[j])))")]),
+    },
+    extra={"allocates": ["Writer"]},
+    props=["C13"])
+
+
+@R.spec
+def fresh_writer(eng, st, w):
+    return z3.And(to_z3(w) >= st.old.alloc["pre:Writer"], to_z3(w) < eng.alloc_bound(st, "Writer"))
+
+
+R.contract(
+    "unphase_header", params={"header": REF("Header")},
+    ensures=[
+        ("phase-tags-undefined", "tag('HP') not in header.formats and tag('PQ') not in header.formats and tag('PS') not in header.formats"),
+        ("other-formats-kept", "forall(t, implies(t != tag('HP') and t != tag('PQ') and t != tag('PS'), (t in header.formats) == old(t in header.formats)))"),
+        ("only-phasing-lines-removed", "forall(k, implies(0 <= k and k < len(header.hrecs) and header.hrecs[k].removed and not old(header.hrecs[k].removed), "
+                                       "header.hrecs[k].key == tag('phasing')))"),
+    ],
+    requires=[("records-valid", "forall(k, implies(0 <= k and k < len(header.hrecs), header.hrecs[k] is not None))")],
+    modifies=["Header.formats", "HRec.removed"],
+    loops={0: dict(index="hi", modifies=["HRec.removed"],
+                   inv=[("nothing-removed-yet", "forall(k, implies(0 <= k and k < len(header.hrecs), header.hrecs[k].removed == old(header.hrecs[k].removed)))")])},
+    props=["C13"])
+
+
+def canary():
+    import copy
+    c = copy.copy(R.contracts["run_unphase"])
+    c.ensures = [("wrong", "forall(k, implies(0 <= k and k < len(reader.records), record_untouched(reader.records[k])))")]   # "unphase changes nothing"
+    return c
+
+
+R.canaries.append(("unphase.py:canary#records-untouched", canary))
